@@ -101,23 +101,21 @@ TriRecCheck(s, r) ==
        /\ Cardinality(Rng(HFVerts(s, r.hf))) = 3) THEN ""
   ELSE IF ~TriangleOK(s, r.hf, r.a, r.t) THEN "C15:TriangleTopology" ELSE ""
 
-TetQueryCheck(s, q) ==
-  LET QC == TetQC(s)
-      m1 == FirstMsg([i \in DOMAIN q.cells |-> TetCellRecCheck(s, q, q.cells[i], QC)]) IN
+TetQueryCheck(s, q, QC) ==
+  LET m1 == FirstMsg([i \in DOMAIN q.cells |-> TetCellRecCheck(s, q, q.cells[i], QC)]) IN
   IF m1 # "" THEN m1
   ELSE IF ~Has(q, "topo") THEN ""
   ELSE LET m2 == FirstMsg([i \in DOMAIN q.topo |-> TetTopoCheck(s, q.topo[i], QC)]) IN
        IF m2 # "" THEN m2 ELSE FirstMsg([i \in DOMAIN q.tris |-> TriRecCheck(s, q.tris[i])])
 
 (* answers vs. the operational transcription: drift only                   *)
-TetCellsQueried(s, q) == LET QC == TetQC(s) IN Cardinality({i \in DOMAIN q.cells : q.cells[i].c \in QC})
-TetQueryDrift(s, q) ==
-  LET QC == TetQC(s) IN
+TetCellsQueried(s, q, QC) == Cardinality({i \in DOMAIN q.cells : q.cells[i].c \in QC})
+TetQueryDrift(s, q, QC) ==
   \/ \E i \in DOMAIN q.cells : LET r == q.cells[i] IN r.c \in QC /\
         \/ r.gcv # GetCellVerticesC(s, r.c)
         \/ \E k \in DOMAIN r.gcv_v : r.gcv_v[k][2] # GetCellVerticesCV(s, r.c, r.gcv_v[k][1])
         \/ \E k \in DOMAIN r.voh : r.voh[k][2] # VertexOppositeHalfface(s, r.c, r.voh[k][1])
-  \/ (TetStateOK(s) /\ TetShape(s)) /\
+  \/ (QC # {} /\ TetShape(s)) /\
         \E k \in DOMAIN q.hov : q.hov[k][1] \in LiveHF(s) /\
            (At(s.inc, q.hov[k][1]) = -1 \/ At(s.inc, q.hov[k][1]) \in QC) /\
            q.hov[k][2] # HalffaceOppositeVertex(s, q.hov[k][1])
@@ -129,34 +127,36 @@ TetLine(ln, pp, qp) ==
       post == Obs(qp)
       mod  == IsModelOp(c)
       m    == IF mod THEN TetApply(pre, c) ELSE pre
+      QC   == TetQC(post)
       isCol == mod /\ c.op = "collapse_edge"
       inC  == isCol /\ CollapseInContract(pre, c.a)
       cands == IF ~isCol THEN <<>> ELSE
                << m.gV, HintSeq(IdVals(pp, "V"), IdVals(qp, "V")), MonotoneVMap(pre, post, From(pre, c.a)) >>
       colOK == \E i \in DOMAIN cands : CollapseRel(pre, c.a, post, ln.ret, cands[i])
-      qmsg == IF Has(ln, "q") THEN TetQueryCheck(post, ln.q) ELSE ""
+      qmsg == IF Has(ln, "q") THEN TetQueryCheck(post, ln.q, QC) ELSE ""
       msg  == IF ~WellFormed(post) THEN "C15:WellFormed"
               ELSE IF ~TetShape(post) THEN "C15:TetShape"
               ELSE IF inC /\ ~colOK THEN "C15:CollapseRel"
               ELSE qmsg
       drift == \/ mod /\ Strip(m) # Strip(post)
                \/ mod /\ ln.ret # -2 /\ m.ret # ln.ret
-               \/ Has(ln, "q") /\ TetQueryDrift(post, ln.q)
+               \/ Has(ln, "q") /\ TetQueryDrift(post, ln.q, QC)
   IN [msg |-> msg, drift |-> IF drift THEN 1 ELSE 0,
       d |-> [col_in |-> IF inC THEN 1 ELSE 0, col_out |-> IF isCol /\ ~inC THEN 1 ELSE 0,
              col_cells_rebuilt |-> IF inC /\ \E x \in LiveC(pre) : From(pre, c.a) \in CellVertSet(pre, x) /\ To(pre, c.a) \notin CellVertSet(pre, x)
                                    THEN 1 ELSE 0,
-             cells_q |-> IF Has(ln, "q") THEN TetCellsQueried(post, ln.q) ELSE 0,
+             cells_q |-> IF Has(ln, "q") THEN TetCellsQueried(post, ln.q, QC) ELSE 0,
              labelings |-> IF Has(ln, "q") /\ Has(ln.q, "topo") THEN Len(ln.q.topo) ELSE 0,
              acc |-> 0, rej |-> 0]]
 
 TetState(ln) ==      \* a 'pre' line: state predicates and queries on the seed state
   LET post == Obs(ln.post)
-      qmsg == IF Has(ln, "q") THEN TetQueryCheck(post, ln.q) ELSE ""
+      QC   == TetQC(post)
+      qmsg == IF Has(ln, "q") THEN TetQueryCheck(post, ln.q, QC) ELSE ""
       msg  == IF ~WellFormed(post) THEN "C15:WellFormed" ELSE IF ~TetShape(post) THEN "C15:TetShape" ELSE qmsg
-  IN [msg |-> msg, drift |-> IF Has(ln, "q") /\ TetQueryDrift(post, ln.q) THEN 1 ELSE 0,
+  IN [msg |-> msg, drift |-> IF Has(ln, "q") /\ TetQueryDrift(post, ln.q, QC) THEN 1 ELSE 0,
       d |-> [col_in |-> 0, col_out |-> 0, col_cells_rebuilt |-> 0,
-             cells_q |-> IF Has(ln, "q") THEN TetCellsQueried(post, ln.q) ELSE 0,
+             cells_q |-> IF Has(ln, "q") THEN TetCellsQueried(post, ln.q, QC) ELSE 0,
              labelings |-> IF Has(ln, "q") /\ Has(ln.q, "topo") THEN Len(ln.q.topo) ELSE 0, acc |-> 0, rej |-> 0]]
 
 (* =============================== C16 ==================================== *)
@@ -184,15 +184,13 @@ HexSheetHFCheck(s, pr, QC) ==
   ELSE IF ~((SheetCells(s, TheElem(cs), 0) \cup SheetCells(s, TheElem(cs), 2)) \subseteq QC) THEN ""
   ELSE IF Rng(pr[2]) # SheetHalffaces(s, hf) THEN "C16:halfface_sheet_halffaces" ELSE ""
 
-HexQueryCheck(s, q) ==
-  LET QC == HexQC(s)
-      m1 == FirstMsg([i \in DOMAIN q.cells |-> HexCellRecCheck(s, q, q.cells[i], QC)]) IN
+HexQueryCheck(s, q, QC) ==
+  LET m1 == FirstMsg([i \in DOMAIN q.cells |-> HexCellRecCheck(s, q, q.cells[i], QC)]) IN
   IF m1 # "" THEN m1 ELSE FirstMsg([i \in DOMAIN q.hfshf |-> HexSheetHFCheck(s, q.hfshf[i], QC)])
-HexCellsQueried(s, q) == LET QC == HexQC(s) IN Cardinality({i \in DOMAIN q.cells : q.cells[i].c \in QC})
+HexCellsQueried(s, q, QC) == Cardinality({i \in DOMAIN q.cells : q.cells[i].c \in QC})
 
-HexQueryDrift(s, q) ==
-  (HexStateOK(s) /\ s.ebu /\ HeHfIsInverse(s) /\ HexShape(s)) /\
-  LET QC == HexQC(s) IN
+HexQueryDrift(s, q, QC) ==
+  (QC # {} /\ s.ebu /\ HexShape(s)) /\
   \/ \E i \in DOMAIN q.cells : LET r == q.cells[i] IN r.c \in QC /\
         \/ r.hv # HexVertices(s, r.c)
         \/ \E d \in 0 .. 5 : r.csc[d + 1] # SheetCellsOp(s, r.c, d)
@@ -206,9 +204,10 @@ HexLine(ln, pp, qp) ==
       post == Obs(qp)
       mod  == IsModelOp(c)
       m    == IF mod THEN HexApply(pre, c) ELSE pre
+      QC   == HexQC(post)
       isAdd == mod /\ c.op = "add_cell" /\ c.f
       listOK == isAdd /\ WellFormed(pre) /\ \A i \in DOMAIN c.l : c.l[i] \in LiveHF(pre)
-      qmsg == IF Has(ln, "q") THEN HexQueryCheck(post, ln.q) ELSE ""
+      qmsg == IF Has(ln, "q") THEN HexQueryCheck(post, ln.q, QC) ELSE ""
       msg  == IF ~WellFormed(post) THEN "C16:WellFormed"
               ELSE IF ~HexShape(post) THEN "C16:HexShape"
               ELSE IF listOK /\ ~HexAddCellRel(pre, c.l, post, ln.ret) THEN "C16:AddCellRel"
@@ -216,21 +215,22 @@ HexLine(ln, pp, qp) ==
               ELSE qmsg
       drift == \/ mod /\ m.err = "" /\ Strip(m) # Strip(post)
                \/ mod /\ ln.ret # -2 /\ m.ret # ln.ret
-               \/ Has(ln, "q") /\ HexQueryDrift(post, ln.q)
+               \/ Has(ln, "q") /\ HexQueryDrift(post, ln.q, QC)
   IN [msg |-> msg, drift |-> IF drift THEN 1 ELSE 0,
       d |-> [col_in |-> 0, col_out |-> 0, col_cells_rebuilt |-> 0,
-             cells_q |-> IF Has(ln, "q") THEN HexCellsQueried(post, ln.q) ELSE 0,
+             cells_q |-> IF Has(ln, "q") THEN HexCellsQueried(post, ln.q, QC) ELSE 0,
              labelings |-> 0,
              acc |-> IF listOK /\ ln.ret # -1 THEN 1 ELSE 0, rej |-> IF listOK /\ ln.ret = -1 THEN 1 ELSE 0]]
 
 HexState(ln) ==
   LET post == Obs(ln.post)
-      qmsg == IF Has(ln, "q") THEN HexQueryCheck(post, ln.q) ELSE ""
+      QC   == HexQC(post)
+      qmsg == IF Has(ln, "q") THEN HexQueryCheck(post, ln.q, QC) ELSE ""
       msg  == IF ~WellFormed(post) THEN "C16:WellFormed" ELSE IF ~HexShape(post) THEN "C16:HexShape"
               ELSE IF ~HexConventionAll(post) THEN "C16:HexConvention" ELSE qmsg
-  IN [msg |-> msg, drift |-> IF Has(ln, "q") /\ HexQueryDrift(post, ln.q) THEN 1 ELSE 0,
+  IN [msg |-> msg, drift |-> IF Has(ln, "q") /\ HexQueryDrift(post, ln.q, QC) THEN 1 ELSE 0,
       d |-> [col_in |-> 0, col_out |-> 0, col_cells_rebuilt |-> 0,
-             cells_q |-> IF Has(ln, "q") THEN HexCellsQueried(post, ln.q) ELSE 0,
+             cells_q |-> IF Has(ln, "q") THEN HexCellsQueried(post, ln.q, QC) ELSE 0,
              labelings |-> 0, acc |-> 0, rej |-> 0]]
 
 (* ----------------------------- one line -------------------------------- *)
